@@ -245,7 +245,7 @@ CHECKS = {
          "(fee, fee_per_kb, inputs, change amounts or the error kind; random.randint and numpy dirichlet draws recorded), sweep, "
          "Transaction.bumpfee and WalletTransaction.bumpfee (incl. the extra-input fallback). Every created transaction is additionally checked against the sentences of C07 on the objects and on the raw "
          "bytes parsed by the Lean parser (recipients once with exact script, other outputs to change keys, inputs distinct/unspent/confirmed, "
-         "signs and verifies). Found and fixed: F39, F41, F42, F48 (duplicate explicit inputs); listed: F40 (invalid explicit input lists are accepted)."),
+         "signs and verifies). Found and fixed: F39, F41, F42, F48 (duplicate explicit inputs), F88 (fee rate below the network minimum with many inputs; the theorem create_rate_limits is now about the rate of the final fee, and the signed bytes are checked to pay a rate within 10% of the limits); listed: F40 (invalid explicit input lists are accepted)."),
    design_ref='DESIGN.md §5 C07',
    note=COMMON_NOTE + "Rows with equal (confirmations, value) may come back from SQLite in either order; selections differing only in such ties count as equal. send()'s fee re-estimation is exercised through C08 histories, not modelled."),
  'C09': dict(
